@@ -677,7 +677,7 @@ func init() {
 			return r
 		},
 		MinNonTriv:  10,
-		Assumptions: []string{"the expectation is defined by calling snap.SnapPolygon in-process with the same flags (the statement says 'what the library computes')", "hook H1 replaces SpatiaLite", "no '%' in target paths, no BLOB/DATETIME attributes, no empty polygons in polygon tables"},
+		Assumptions: []string{"the expectation is defined by calling snap.SnapPolygon in-process with the same flags (the statement says 'what the library computes')", "hook H1 replaces SpatiaLite", "no '%' and no '?' in target paths (the tool builds target names with a format string made from the path; the sqlite driver cuts a name at '?'), no BLOB attributes, DATE/DATETIME/TIMESTAMP attributes compared as instants, no empty polygons in polygon tables"},
 		Technique:   "runtime monitor: end-to-end differential oracle (binary vs library) over generated GeoPackages",
 		Workers:     8,
 		FlushEvery:  10,
